@@ -143,6 +143,8 @@ def star_scene(rng, h=44, w=52):
         pos.append((px, py))
     data += np.random.default_rng(rng.randrange(10**6)).normal(0, 1.0, (h, w))
     data[30:40, 0:12] -= 6.0                                           # a negative region
+    if rng.random() < 0.6:
+        data[rng.randint(33, 36), rng.randint(4, 7)] = rng.uniform(40, 120)   # an isolated hot pixel whose whole neighbourhood is negative
     if rng.random() < 0.5:
         data[5:8, 20:23] += 300.0                                      # a sharp box (fails sharpness/roundness)
     return data, pos
@@ -195,7 +197,8 @@ def rec_star(seed):
         tall = mk(None)(data, mask=mask) if brightest else t
 
     def fk(v):
-        return int(round(float(v) * S))
+        v = float(v)
+        return int(round(v * S)) if np.isfinite(v) else 0          # non-finite values are reported through the row's `finite` flag
     rows = []
     if t is not None:
         for r in t:
